@@ -53,6 +53,59 @@ type state struct {
 	name    string   // ids joined by "_" ("empty" for the empty file)
 	preText []byte   // exactly what the real preprocessor wrote
 	pre     []string // its lines, sorted (the file as a multiset)
+	bulk    bool     // one of bulkFiles: paired only with the other bulk files and the empty file
+}
+
+// bulkFiles are data files with many copies of a few lines (alphabet index,
+// copies): two values under one key and a second key, 150 / 75 lines, and a
+// file that differs from both by additions AND deletions under both keys. The
+// diffs between them (and the empty file) carry 75-150 records - more than
+// rdb.DefaultBatchSize as scaled down in this harness' OVERLAY (64), so the
+// batch outgrows its allocation - and 2-7 KB of text, so the line scanner's
+// first buffer (4096 bytes) is used up, shifted and refilled.
+var bulkFiles = [][][2]int{
+	{{0, 50}, {1, 50}, {4, 50}},
+	{{0, 25}, {1, 25}, {4, 25}},
+	{{0, 50}, {2, 25}},
+}
+
+func bulkName(bf [][2]int) string {
+	p := make([]string, len(bf))
+	for i, lc := range bf {
+		p[i] = fmt.Sprintf("%sx%d", alphabet[lc[0]].id, lc[1])
+	}
+	return strings.Join(p, "_")
+}
+
+// bulkOrders: the line orders tried for a bulk diff: merge order (equal lines
+// adjacent), its reversal, all '+' before all '-', all '-' before all '+', a few
+// lexicographic ranks, and round robin over the groups of equal lines (two
+// operations on one key are then always separated by operations on the other
+// key, and '+' and '-' lines alternate).
+func bulkOrders(diff []string) [][]int {
+	perms, _ := orders(diff, 6)
+	var groups [][]int
+	for i, l := range diff {
+		if i > 0 && diff[i-1] == l {
+			groups[len(groups)-1] = append(groups[len(groups)-1], i)
+		} else {
+			groups = append(groups, []int{i})
+		}
+	}
+	var rr []int
+	for j := 0; len(rr) < len(diff); j++ {
+		for _, g := range groups {
+			if j < len(g) {
+				rr = append(rr, g[j])
+			}
+		}
+	}
+	for _, p := range perms {
+		if fmt.Sprint(p) == fmt.Sprint(rr) {
+			return perms
+		}
+	}
+	return append(perms, rr)
 }
 
 func srcName(src []int) string {
